@@ -167,8 +167,8 @@ def gen_scenario(batch_seed, i, tier):
             makes.append(m)
             threads[0].append(m)
             threads[0].append({'op': 'reencode', 'sym': m['id'], 'symspec': {'fn': m['fn'], 'content': m['content'], 'kw': m['kw']}, 'name': 't0r%d' % k})
-    gran = 'instr' if (trace and rng.random() < 0.15) else 'line'
-    kind = rng.weighted([('geometric', 60), ('fixed', 10), ('starve', 15), ('sequential', 15)])
+    gran = 'instr' if (trace and rng.random() < 0.1) else 'line'
+    kind = rng.weighted([('geometric', 45), ('bimodal', 20), ('fixed', 10), ('starve', 12), ('sequential', 13)])
     mean = rng.choice((3, 10, 40, 150, 600, 2500, 10000, 40000))
     twin = trace and nthreads >= 2 and rng.random() < 0.3
     if twin:
@@ -178,9 +178,31 @@ def gen_scenario(batch_seed, i, tier):
         threads, makes = _twin_threads(rng, nthreads, small)
         kind = rng.choice(('roundrobin', 'roundrobin', 'fixed', 'geometric'))
         mean = rng.choice((1, 1, 2, 3, 5, 8))
-    if gran == 'instr':
+        gran = 'line'
+        if rng.random() < 0.3:
+            # windows inside one source line need a switch between two bytecodes. A context switch of real threads costs
+            # ~20 us, so instruction-granular lockstep is kept to two clients, one operation each, slices of 3-13 instructions
+            gran = 'instr'
+            if rng.random() < 0.7:
+                # hold the twins at every line that touches shared mutable state, then cross it in tight alternation
+                kind = 'rendezvous'
+                mean = rng.choice((500, 3000, 20000))
+                threads = [th[:2] for th in threads[:rng.choice((2, 2, 3))]]
+                nthreads = len(threads)
+            else:
+                mean = rng.choice((3, 4, 5, 7, 9, 13))
+                kind = rng.choice(('bimodal', 'roundrobin'))
+                threads = [th[:1] for th in threads[:2]]
+                nthreads = 2
+    if gran == 'instr' and not twin and kind != 'bimodal':
         mean *= 5
+    if kind == 'bimodal':
+        mean = min(mean, 12)
+    if kind == 'rendezvous' and gran != 'instr':
+        kind = 'geometric'
     policy = {'kind': kind, 'mean': mean, 'seed': rng.getrandbits(48), 'victim': rng.randrange(nthreads)}
+    if kind == 'rendezvous':
+        policy.update(rv_prob=rng.choice((0.1, 0.25, 0.5)), tight=rng.choice((24, 40, 70)), patience=rng.choice((5000, 30000)))
     faults = []
     if trace and rng.random() < 0.45:
         for _ in range(rng.randint(1, 3)):
@@ -212,7 +234,7 @@ def _twin_threads(rng, nthreads, small):
     base = ops.gen_make(rng, 's0', small=True, allow_bad=False)
     while base['fn'] == 'make_sequence' or base['fn'].startswith('helpers.'):
         base = ops.gen_make(rng, 's0', small=True, allow_bad=False)
-    what = rng.weighted([('save', 70), ('make', 15), ('miter', 8), ('uri', 7)])
+    what = rng.weighted([('save', 55), ('make', 30), ('miter', 8), ('uri', 7)])
     kinds = [rng.choice(opts.KINDS) for _ in range(rng.randint(1, 3))]
     threads = [[] for _ in range(nthreads)]
     symspec = {'fn': base['fn'], 'content': base['content'], 'kw': base['kw']}
@@ -221,6 +243,8 @@ def _twin_threads(rng, nthreads, small):
             name = 't%do%d' % (t, j)
             if what == 'make':
                 spec = dict(base, id='s%d_%d' % (t, j))
+                if 'mask' in base['kw'] and j % 2 == 0:
+                    spec['kw'] = {k: v for k, v in base['kw'].items() if k != 'mask'}
                 if t > 0:
                     c = core.dec(base['content'])
                     if isinstance(c, str) and c:
@@ -377,6 +401,7 @@ def execute(sc):
         'policy': {sc['policy']['kind'] if sc['trace'] else 'sequential-history': 1},
         'new_module_attrs': {'max': stats['new_module_attrs']},
         'flavour': {sc.get('flavour', 'unknown'): 1},
+        'rendezvous': S.rendezvous,
     })
     # "this rare condition was hit" probes: pre-emptions and injected faults that landed inside functions holding in-flight state
     probe_pre = counters.setdefault('preempted_inside', {})
@@ -539,8 +564,8 @@ def coverage_rule():
 
 def tier_params(tier):
     if tier == 'quick':
-        return {'runs': 640, 'run_timeout': 900.0, 'wall_cap': 2400}
-    return {'budget_s': 900, 'min_runs': 640, 'run_timeout': 1800.0, 'wall_cap': 5400}
+        return {'runs': 560, 'run_timeout': 900.0, 'wall_cap': 2400}
+    return {'budget_s': 900, 'min_runs': 560, 'run_timeout': 1800.0, 'wall_cap': 5400}
 
 
 def finish_coverage(cov, counters):
